@@ -2,6 +2,8 @@ package an
 
 import (
 	"go/token"
+	"sort"
+	"strings"
 
 	"golang.org/x/tools/go/ssa"
 )
@@ -352,4 +354,260 @@ func Returns(fn *ssa.Function) []*ssa.Return {
 		}
 	}
 	return out
+}
+
+// SearchCorr is a path-sensitive Search: a branch on a condition that the path
+// has already decided (the same comparison of the same SSA values, by CondKey)
+// can only go the way it went before. A decision is forgotten when the path
+// re-executes the instruction that computes the condition (next loop
+// iteration). known holds decisions valid at the start. Used where the code
+// tests one boolean twice (`stopping := ...; if !stopping {...}; ...; if stopping {...}`).
+func SearchCorr(from Point, target, avoid func(ssa.Instruction) bool, known map[string]bool) []ssa.Instruction {
+	fn := from.B.Parent()
+	// conditions worth tracking: those tested by more than one If, plus the initially known ones
+	count := map[string]int{}
+	defOf := map[ssa.Instruction][]string{} // instruction computing a tracked condition -> keys to forget
+	loadsLocal := map[*ssa.Alloc][]string{} // local variable read by a tracked condition -> keys
+	var loadsOther []string                 // keys of tracked conditions that read memory reached through pointers
+	// the conditions an If can depend on: its condition, or - for a short-circuit && / || compiled to a phi of
+	// booleans - the non-constant operands of that phi
+	condsOf := func(iff *ssa.If) []ssa.Value {
+		if phi, ok := iff.Cond.(*ssa.Phi); ok && phi.Block() == iff.Block() {
+			var out []ssa.Value
+			for _, e := range phi.Edges {
+				if _, isC := e.(*ssa.Const); !isC {
+					out = append(out, e)
+				}
+			}
+			return out
+		}
+		return []ssa.Value{iff.Cond}
+	}
+	for _, b := range fn.Blocks {
+		if len(b.Instrs) == 0 {
+			continue
+		}
+		if iff, ok := b.Instrs[len(b.Instrs)-1].(*ssa.If); ok {
+			for _, cv := range condsOf(iff) {
+				key, _ := CondKey(cv)
+				count[key]++
+			}
+		}
+	}
+	tracked := map[string]bool{}
+	for k := range known {
+		tracked[k] = true
+	}
+	for k, n := range count {
+		if n > 1 {
+			tracked[k] = true
+		}
+	}
+	for _, b := range fn.Blocks {
+		if len(b.Instrs) == 0 {
+			continue
+		}
+		if iff, ok := b.Instrs[len(b.Instrs)-1].(*ssa.If); ok {
+			for _, cv := range condsOf(iff) {
+				key, _ := CondKey(cv)
+				if !tracked[key] {
+					continue
+				}
+				// the decision is stale once an operand of the comparison is computed anew
+				inner, _ := Not(cv)
+				var ops []ssa.Value
+				if bo, ok := inner.(*ssa.BinOp); ok {
+					ops = []ssa.Value{bo.X, bo.Y}
+				} else {
+					ops = []ssa.Value{inner}
+				}
+				for _, o := range ops {
+					for i := 0; i < 4; i++ { // through value-preserving wrappers
+						if ld, isLoad := o.(*ssa.UnOp); isLoad && ld.Op == token.MUL {
+							// a load reads memory again, which gives the same value unless that memory was
+							// written in between: remember what it reads
+							if al := allocRootOf(ld.X); al != nil {
+								loadsLocal[al] = append(loadsLocal[al], key)
+							} else {
+								loadsOther = append(loadsOther, key)
+							}
+						} else if def, ok := o.(ssa.Instruction); ok {
+							defOf[def] = append(defOf[def], key)
+						}
+						n := Strip(o)
+						if n == o {
+							break
+						}
+						o = n
+					}
+				}
+			}
+		}
+	}
+	for _, b := range fn.Blocks {
+		for _, in := range b.Instrs {
+			switch x := in.(type) {
+			case *ssa.Store:
+				if al := allocRootOf(x.Addr); al != nil {
+					if ks := loadsLocal[al]; len(ks) > 0 {
+						defOf[in] = append(defOf[in], ks...)
+					}
+				} else if len(loadsOther) > 0 {
+					defOf[in] = append(defOf[in], loadsOther...)
+				}
+			case *ssa.Call:
+				if _, isB := x.Common().Value.(*ssa.Builtin); !isB && len(loadsOther) > 0 {
+					defOf[in] = append(defOf[in], loadsOther...)
+				}
+			}
+		}
+	}
+	type state struct {
+		b, pred *ssa.BasicBlock
+		sig     string
+	}
+	sigOf := func(d map[string]bool) string {
+		var ks []string
+		for k, v := range d {
+			if v {
+				ks = append(ks, k+"=1")
+			} else {
+				ks = append(ks, k+"=0")
+			}
+		}
+		sort.Strings(ks)
+		return strings.Join(ks, ";")
+	}
+	type item struct {
+		b, pred *ssa.BasicBlock
+		start   int
+		dec     map[string]bool
+		trail   []ssa.Instruction
+	}
+	clone := func(d map[string]bool) map[string]bool {
+		o := map[string]bool{}
+		for k, v := range d {
+			o[k] = v
+		}
+		return o
+	}
+	visited := map[state]bool{}
+	queue := []item{{from.B, nil, from.I, clone(known), nil}}
+	steps := 0
+	for len(queue) > 0 && steps < 20000 {
+		steps++
+		it := queue[0]
+		queue = queue[1:]
+		b := it.b
+		dec := it.dec
+		stop := false
+		for i := it.start; i < len(b.Instrs); i++ {
+			in := b.Instrs[i]
+			if target != nil && target(in) {
+				return append(append([]ssa.Instruction{}, it.trail...), in)
+			}
+			if avoid != nil && avoid(in) {
+				stop = true
+				break
+			}
+			if IsExit(in) {
+				stop = true
+				break
+			}
+			if ks, ok := defOf[in]; ok {
+				for _, k := range ks {
+					delete(dec, k)
+				}
+			}
+		}
+		if stop || len(b.Instrs) == 0 {
+			continue
+		}
+		var nexts []*ssa.BasicBlock
+		var decided []map[string]bool
+		if iff, ok := b.Instrs[len(b.Instrs)-1].(*ssa.If); ok {
+			// a phi of booleans in this block: its value is the operand of the edge the path came by
+			cv := iff.Cond
+			forced := -1
+			if phi, isPhi := cv.(*ssa.Phi); isPhi && phi.Block() == b && it.pred != nil {
+				for pi, p := range b.Preds {
+					if p == it.pred {
+						cv = phi.Edges[pi]
+					}
+				}
+				if c, isC := cv.(*ssa.Const); isC {
+					if bv, okb := BoolConst(c); okb {
+						if bv {
+							forced = 0
+						} else {
+							forced = 1
+						}
+					}
+				}
+			}
+			if forced >= 0 {
+				nexts, decided = []*ssa.BasicBlock{b.Succs[forced]}, []map[string]bool{dec}
+			} else if k, isC := constBranch(iff); isC {
+				nexts, decided = []*ssa.BasicBlock{b.Succs[k]}, []map[string]bool{dec}
+			} else {
+				key, neg := CondKey(cv)
+				if val, ok := dec[key]; ok && tracked[key] {
+					if val != neg {
+						nexts = []*ssa.BasicBlock{b.Succs[0]}
+					} else {
+						nexts = []*ssa.BasicBlock{b.Succs[1]}
+					}
+					decided = []map[string]bool{dec}
+				} else {
+					nexts = b.Succs
+					for si := range b.Succs {
+						d := dec
+						if tracked[key] {
+							d = clone(dec)
+							// successor 0 is taken when iff.Cond is true, i.e. the un-negated key is (true != neg)
+							d[key] = (si == 0) != neg
+						}
+						decided = append(decided, d)
+					}
+				}
+			}
+		} else {
+			nexts = b.Succs
+			for range b.Succs {
+				decided = append(decided, dec)
+			}
+		}
+		for i, s := range nexts {
+			st := state{s, b, sigOf(decided[i])}
+			if visited[st] {
+				continue
+			}
+			visited[st] = true
+			tr := it.trail
+			if len(s.Instrs) > 0 {
+				tr = append(append([]ssa.Instruction{}, it.trail...), s.Instrs[0])
+			}
+			queue = append(queue, item{s, b, 0, clone(decided[i]), tr})
+		}
+	}
+	return nil
+}
+
+// allocRootOf returns the local variable (Alloc) an address points into,
+// following field and element selections; nil when the address is reached
+// through a pointer loaded from elsewhere.
+func allocRootOf(a ssa.Value) *ssa.Alloc {
+	for i := 0; i < 16; i++ {
+		switch x := a.(type) {
+		case *ssa.Alloc:
+			return x
+		case *ssa.FieldAddr:
+			a = x.X
+		case *ssa.IndexAddr:
+			a = x.X
+		default:
+			return nil
+		}
+	}
+	return nil
 }
